@@ -1105,7 +1105,11 @@ class Interp:
                 if key not in cache:
                     cache[key] = _MISSING            # guards against re-entry while it is being evaluated
                     try:
-                        v = self.expr(c.class_attrs[name], {'__module__': c.module}, c.module)
+                        cenv_ = {'__module__': c.module}
+                        for n_ in ast.walk(c.class_attrs[name]):
+                            if isinstance(n_, ast.Name) and n_.id != name and n_.id in c.class_attrs:
+                                cenv_[n_.id] = self.class_attr(c, n_.id)          # a name of the class body defined further up
+                        v = self.expr(c.class_attrs[name], cenv_, c.module)
                     except (Raised, PyRaise):
                         v = Unk('class attribute %s.%s' % (c.name, name))
                     cache[key] = v
@@ -2350,6 +2354,15 @@ class Interp:
                 env2_['__alt__'] = alt_
                 outs_.append(self.subscript(ast.copy_location(ast.Subscript(value=ast.Name(id='__alt__', ctx=ast.Load()), slice=e.slice, ctx=ast.Load()), e), env2_, mod))
             return merge_val(outs_[0], outs_[1], v.cond, e)
+        for el_ in (e.slice.elts if isinstance(e.slice, ast.Tuple) else [e.slice]):
+            if isinstance(el_, ast.Name) and isinstance(env.get(el_.id), _SelectVal) and _is_index_alt(env[el_.id]):
+                # x[..., s] with s one of two slices chosen by a data-dependent condition: the subscript is taken with each and the results merged
+                sv_, outs_ = env[el_.id], []
+                for alt_ in (sv_.a, sv_.b):
+                    env2_ = dict(env)
+                    env2_[el_.id] = alt_
+                    outs_.append(self.subscript(e, env2_, mod))
+                return merge_val(outs_[0], outs_[1], sv_.cond, e)
         if isinstance(v, Foreign):
             k = tuple(self.expr(x, env, mod) for x in e.slice.elts) if isinstance(e.slice, ast.Tuple) else (_SliceVal(*[self.expr(x, env, mod) if x is not None else None for x in (e.slice.lower, e.slice.upper, e.slice.step)]) if isinstance(e.slice, ast.Slice) else self.expr(e.slice, env, mod))
             r = v.sl_getitem(self, k, e)
@@ -2624,10 +2637,23 @@ class Interp:
     # ---- calls
     def callexpr(self, e, env, mod):
         f = self.expr(e.func, env, mod)
-        if any(isinstance(a, ast.Starred) for a in e.args) or any(k.arg is None for k in e.keywords):
-            return Unk('star arguments', e)
-        args = [self.expr(a, env, mod) for a in e.args]
-        kw = {k.arg: self.expr(k.value, env, mod) for k in e.keywords}
+        args, kw = [], {}
+        for a in e.args:
+            if isinstance(a, ast.Starred):
+                sv_ = self.expr(a.value, env, mod)
+                if not isinstance(sv_, (list, tuple)):
+                    return sv_ if isinstance(sv_, Unk) else Unk('star arguments', e)
+                args.extend(sv_)          # f(*seq) with a sequence whose items are known
+            else:
+                args.append(self.expr(a, env, mod))
+        for k in e.keywords:
+            if k.arg is None:
+                dv_ = self.expr(k.value, env, mod)
+                if not (isinstance(dv_, dict) and all(isinstance(x_, str) for x_ in dv_)):
+                    return dv_ if isinstance(dv_, Unk) else Unk('star arguments', e)
+                kw.update(dv_)
+            else:
+                kw[k.arg] = self.expr(k.value, env, mod)
         return self.apply(f, args, kw, e, mod, env)
 
     def apply(self, f, args, kw, e, mod, env=None):
@@ -2647,6 +2673,9 @@ class Interp:
             return self.call(f.fi, args, kw, selfv=f.selfv, node=e)
         if isinstance(f, Closure):
             return self.call(f.fi, args, kw, node=e, closure=f.env)
+        if isinstance(f, _SelectVal) and isinstance(f.a, (FuncRef, Closure)) and isinstance(f.b, (FuncRef, Closure)):
+            ra_, rb_ = self.apply(f.a, list(args), dict(kw), e, mod, env), self.apply(f.b, list(args), dict(kw), e, mod, env)
+            return merge_val(ra_, rb_, f.cond, e)
         if isinstance(f, ClassRef):
             r = self.hooks.construct(self, f.ci, args, kw, e)
             if r is not NotImplemented:
@@ -3470,6 +3499,8 @@ class Interp:
                 return sorted(args[0])
             if last == 'reversed' and args and isinstance(args[0], (list, tuple)):
                 return list(reversed(args[0]))
+            if last == 'fromkeys' and 1 <= len(args) <= 2 and isinstance(args[0], (list, tuple)) and all(isinstance(x_, (str, int)) for x_ in args[0]):
+                return {k_: (args[1] if len(args) > 1 else None) for k_ in args[0]}          # dict.fromkeys(names[, value])
             return Unk('builtin %s' % last, e)
         if name.startswith('astropy.units'):
             if last == 'Quantity' and args:
@@ -4467,11 +4498,37 @@ def merge_val(a, b, cond, node):
         return _Select(cond, a, b)             # one of two library objects, chosen by the condition: what is done with it is done with each under its condition
     if cond is not None and isinstance(a, (str, Fmt)) and isinstance(b, (str, Fmt)):
         return _SelectVal(cond, a, b)          # one of two pieces of text, chosen by the condition
-    if isinstance(a, (FuncRef, ClassRef, ModRef, Marker)) and type(a) == type(b):
+    if cond is not None and _is_index_alt(a) and _is_index_alt(b) and (isinstance(a, (_SliceVal, _SelectVal)) or isinstance(b, (_SliceVal, _SelectVal))):
+        return _SelectVal(cond, a, b)          # one of two slices, chosen by the condition (taken apart again where it is used as a subscript)
+    if isinstance(a, (FuncRef, ClassRef, ModRef, Marker)) and type(a) == type(b) and \
+            (a.fi is b.fi if isinstance(a, FuncRef) else a.ci is b.ci if isinstance(a, ClassRef) else a.mod is b.mod if isinstance(a, ModRef) else a.name == b.name):
         return a
+    if cond is not None and isinstance(a, (FuncRef, Closure)) and isinstance(b, (FuncRef, Closure)) and _pure_fn(a.fi) and _pure_fn(b.fi):
+        return _SelectVal(cond, a, b)          # one of two (side-effect free) functions, chosen by the condition: a call calls each and merges what they return
     if isinstance(a, tuple) and isinstance(b, tuple) and len(a) == len(b):
         return tuple(merge_val(x, y, cond, node) for x, y in zip(a, b))
     return Unk('value differs between the branches of a data-dependent if', node)
+
+
+def _is_index_alt(v):
+    """a slice, an index array, or a choice between such: something a subscript can be taken with, alternative by alternative"""
+    if isinstance(v, _SelectVal):
+        return _is_index_alt(v.a) and _is_index_alt(v.b)
+    return isinstance(v, _SliceVal) or isinstance(v, Arr) and v.ndim == 1 and v.mask is None
+
+
+def _pure_fn(fi):
+    """the body of the function only binds local names and returns (no stores into objects or arrays, no calls made for their effect)"""
+    for n_ in ast.walk(fi.node):
+        if isinstance(n_, (ast.Assign, ast.AugAssign, ast.AnnAssign)):
+            tg_ = n_.targets if isinstance(n_, ast.Assign) else [n_.target]
+            if not all(isinstance(t_, ast.Name) or isinstance(t_, ast.Tuple) and all(isinstance(x_, ast.Name) for x_ in t_.elts) for t_ in tg_) or isinstance(n_, ast.AugAssign):
+                return False
+        elif isinstance(n_, ast.Expr) and not isinstance(n_.value, ast.Constant):
+            return False
+        elif isinstance(n_, (ast.Global, ast.Nonlocal, ast.Delete, ast.With, ast.Yield, ast.YieldFrom, ast.For, ast.While, ast.Try)):
+            return False
+    return True
 
 
 _MISSING = object()
